@@ -104,7 +104,7 @@ def run(ctx):
             ctx.finding("crash-corpus-" + f, "corpus history %s crashes" % f, {"program": steps, "rc": rc})
 
     PM, LM, PX, LX = (16, 30, 24, 40) if ctx.tier == "quick" else (120, 80, 160, 100)
-    PL, LL = (60, 12) if ctx.tier == "quick" else (600, 14)
+    PL, LL = (250, 12) if ctx.tier == "quick" else (2500, 14)
     p = core.sh([exe, str(PM), str(LM), str(PX), str(LX), str(PL), str(LL)], env={"VERIF_SEED": str(ctx.seed), "VERIF_TIER": ctx.tier}, timeout=7200)
     if p.returncode != 0:
         rp = core.write_replay(ctx.pid, "harness-crash", {"rc": p.returncode, "stderr_tail": p.stderr[-3000:]})
